@@ -48,7 +48,10 @@ struct DefaultGetEvent
 {
 	template <typename U, typename ...Args>
 	static E getEvent(U && e, Args && ...) {
-		return e;
+		// Never move from e, even if U is an rvalue reference (which would be an implicit
+		// move on return in C++20): the caller still uses the argument after getting the event.
+		const typename std::remove_reference<U>::type & ref = e;
+		return ref;
 	}
 };
 template <typename T, typename Key, bool> struct SelectGetEvent { using Type = T; };
